@@ -13,7 +13,10 @@ package main
 //                  with a per-step deadline kept by a watchdog; scenarios "via extract" run the real
 //                  extractor (regex / dissect matcher, real match context).  Reports panics, missed
 //                  deadlines, outcome-class disagreements; records sampled scans as ndjson events.
-//   c08 cli      : a sample of the scenarios through the rare binary (expression, filter -e, histogram -e)
+//                  Process scenarios (g = "proc", proc.go): several compiled expressions and a history of lines in a child of
+//                  their own - sequentially, from several goroutines, through the extractor with an ignore set.
+//   c08 cli      : a sample of the scenarios through the rare binary (expression, filter -e, histogram -e; process scenarios
+//                  with -i and two -e of one invocation)
 //   c08 eval     : one template from the command line (debugging / replay of a finding)
 
 import (
@@ -81,6 +84,11 @@ type Scn struct {
 	Sep     string   `json:"sep"`
 	Lines   []Line   `json:"lines"`
 	Lineset string   `json:"lineset,omitempty"`
+	// g = "proc" (ExprScanPool_Gen): a whole process - several compiled expressions, one history of lines
+	Exprs []ProcExpr `json:"exprs,omitempty"`
+	Mode  string     `json:"mode,omitempty"`
+	Opt   bool       `json:"opt,omitempty"`
+	Kinds []string   `json:"kinds,omitempty"`
 	// g = "values"
 	Names    []string `json:"names,omitempty"`
 	Ffnames  []string `json:"ffnames,omitempty"`
@@ -91,6 +99,13 @@ type Scn struct {
 }
 
 func (s *Scn) Text() string {
+	if len(s.Exprs) > 0 {
+		parts := make([]string, len(s.Exprs))
+		for i := range s.Exprs {
+			parts[i] = s.Exprs[i].Role + ": " + s.Exprs[i].Text()
+		}
+		return strings.Join(parts, " | ")
+	}
 	if len(s.Raw) > 0 {
 		return string(vh.FromInts(s.Raw))
 	}
@@ -202,23 +217,26 @@ type Event struct {
 }
 
 type Result struct {
-	ID       string  `json:"id"`
-	Start    bool    `json:"start,omitempty"`
-	Done     bool    `json:"done,omitempty"`
-	G        string  `json:"g,omitempty"`
-	F        string  `json:"f,omitempty"`
-	Cls      string  `json:"cls,omitempty"`
-	ErrOpt   bool    `json:"errOpt"`
-	ErrNoopt bool    `json:"errNoopt"`
-	ErrText  string  `json:"errText,omitempty"`
-	Mismatch bool    `json:"mismatch,omitempty"`
-	Compiles int     `json:"compiles"`
-	Evals    int     `json:"evals"`
-	Lines    int     `json:"lines"`
-	Markers  int     `json:"markers"`
-	Panics   []Panic `json:"panics,omitempty"`
-	Trace    []Event `json:"trace,omitempty"`
-	ScanBad  string  `json:"scanBad,omitempty"`
+	ID       string   `json:"id"`
+	Start    bool     `json:"start,omitempty"`
+	Done     bool     `json:"done,omitempty"`
+	G        string   `json:"g,omitempty"`
+	F        string   `json:"f,omitempty"`
+	Cls      string   `json:"cls,omitempty"`
+	ErrOpt   bool     `json:"errOpt"`
+	ErrNoopt bool     `json:"errNoopt"`
+	ErrText  string   `json:"errText,omitempty"`
+	Mismatch bool     `json:"mismatch,omitempty"`
+	Compiles int      `json:"compiles"`
+	Evals    int      `json:"evals"`
+	Lines    int      `json:"lines"`
+	Markers  int      `json:"markers"`
+	Panics   []Panic  `json:"panics,omitempty"`
+	Trace    []Event  `json:"trace,omitempty"`
+	ScanBad  string   `json:"scanBad,omitempty"`
+	Mode     string   `json:"mode,omitempty"`
+	Inf      int      `json:"inf,omitempty"`
+	PTrace   []PEvent `json:"ptrace,omitempty"`
 	// abnormal ends written by the watchdog
 	Hang *M     `json:"hang,omitempty"`
 	Oom  *M     `json:"oom,omitempty"`
@@ -236,6 +254,7 @@ type worker struct {
 	memLimit int64
 	hashes   *bufio.Writer
 	traceMod int
+	prog     *progress
 }
 
 func (wk *worker) emit(r *Result) {
@@ -295,7 +314,8 @@ func (wk *worker) begin(phase int, opt bool, line int) {
 }
 func (wk *worker) end() { atomic.StoreInt64(&wk.w.start, 0) }
 
-var reFrame = regexp.MustCompile(`(?m)^(rare/[^\s(]+|github\.com/[^\s(]+)\(`)
+// a frame of rare or of a library it uses, with the receiver of a method: rare/pkg/expressions/stdlib.(*subContext).GetKey
+var reFrame = regexp.MustCompile(`(?m)^((?:rare|github\.com)/[^\s(]*(?:\(\*?[^)\s]*\)[^\s(]*)?)\(`)
 
 func whereOf(stack []byte) string {
 	// first frames below the panic that belong to rare or a library it uses
@@ -602,6 +622,7 @@ func cmdWorker(args []string) error {
 	mem := fs.Int("mem", 3072, "MiB resident before the worker gives up")
 	traceMod := fs.Int("tracemod", 0, "record the scan of every k-th scenario (0: none)")
 	tbase := fs.Int("tbase", 0, "first trace id")
+	progPath := fs.String("progress", "", "progress file of process scenarios")
 	skip := fs.Int("skip", 0, "scenarios of the batch to skip")
 	only := fs.Int("only", -1, "run just this scenario of the batch")
 	fs.Parse(args)
@@ -631,6 +652,14 @@ func cmdWorker(args []string) error {
 		wk.hashes = bufio.NewWriterSize(hf, 1<<20)
 		defer wk.hashes.Flush()
 	}
+	if *progPath != "" {
+		pf, err := os.OpenFile(*progPath, os.O_CREATE|os.O_WRONLY|os.O_TRUNC, 0o644)
+		if err != nil {
+			return err
+		}
+		defer pf.Close()
+		wk.prog = &progress{f: pf}
+	}
 	loadFuncFile(cm.Funcfile)
 	go wk.watchdog()
 
@@ -649,7 +678,9 @@ func cmdWorker(args []string) error {
 		traced := wk.traceMod > 0 && idx%wk.traceMod == 0
 		var res *Result
 		var rerr error
-		if s.Via == "extract" {
+		if s.Via == "proc" {
+			res, rerr = wk.runProc(&s, *tbase+idx, traced)
+		} else if s.Via == "extract" {
 			res, rerr = wk.runExtract(&s, *tbase+idx, traced)
 		} else {
 			res, rerr = wk.runArray(&s, *tbase+idx, traced)
@@ -671,11 +702,15 @@ type batch struct {
 	path  string
 	scns  []scnRef
 	heavy bool
+	proc  bool
 }
 
 type scnRef struct {
 	id, g, f, cls, text, via string
 	lines                    int
+	mode                     string
+	nc                       int
+	opt                      bool
 }
 
 type Finding struct {
@@ -720,6 +755,13 @@ type agg struct {
 	trace       *bufio.Writer
 	traceScans  int
 	traceEvents int
+	ptrace      *bufio.Writer
+	ptraceScans int
+	procModes   map[string]int
+	confirmed   map[string]int // confirmed process deaths per class (runtime verdict + frames)
+	notRerun    int            // further deaths of a class that was confirmed often enough
+	infResults  int
+	procEvals   int
 	children    int
 	childDeaths int
 	infra       []string
@@ -799,12 +841,20 @@ func runChild(self string, args []string, outPath string, wall time.Duration) (*
 }
 
 func fatalLine(stderr string) (msg, where string) {
+	// the text of the Go runtime's verdict: "fatal error: stack overflow", "fatal error: concurrent map writes", "panic: ..."
+	// (a "runtime: goroutine stack exceeds ..." line only precedes it)
+	rt := ""
 	for _, ln := range strings.Split(stderr, "\n") {
-		if strings.HasPrefix(ln, "panic:") || strings.HasPrefix(ln, "fatal error:") || strings.HasPrefix(ln, "runtime: ") {
+		if strings.HasPrefix(ln, "panic:") || strings.HasPrefix(ln, "fatal error:") {
 			if msg == "" {
 				msg = strings.TrimSpace(ln)
 			}
+		} else if strings.HasPrefix(ln, "runtime: ") && rt == "" {
+			rt = strings.TrimSpace(ln)
 		}
+	}
+	if msg == "" {
+		msg = rt
 	}
 	ms := reFrame.FindAllStringSubmatch(stderr, 4)
 	var fr []string
@@ -819,6 +869,7 @@ func cmdReplay(args []string) error {
 	in := fs.String("in", "", "vectors (ndjson; the values vector anywhere)")
 	out := fs.String("out", "replay.json", "")
 	tracePath := fs.String("trace", "", "write sampled scans here")
+	ptracePath := fs.String("ptrace", "", "write the recorded process scans here")
 	traceMod := fs.Int("tracemod", 0, "")
 	workers := fs.Int("workers", 6, "")
 	deadline := fs.Int("deadline", 15000, "ms per compilation / evaluation")
@@ -838,8 +889,8 @@ func cmdReplay(args []string) error {
 
 	// ---- split
 	cm := Common{Linesets: map[string][]Line{}}
-	var light, heavy [][]byte
-	var lrefs, hrefs []scnRef
+	var light, heavy, procs [][]byte
+	var lrefs, hrefs, prefs []scnRef
 	seen := map[string]bool{}
 	err = vh.ReadNd(*in, func(raw json.RawMessage) error {
 		var s Scn
@@ -858,8 +909,11 @@ func cmdReplay(args []string) error {
 			cm.Linesets[s.Name] = s.Lines
 			return nil
 		}
-		ref := scnRef{id: s.ID, g: s.G, f: s.F, cls: s.Cls, text: s.Text(), via: s.Via, lines: len(s.Lines)}
-		if s.Via == "extract" || s.G == "for" {
+		ref := scnRef{id: s.ID, g: s.G, f: s.F, cls: s.Cls, text: s.Text(), via: s.Via, lines: len(s.Lines), mode: s.Mode, nc: len(s.Exprs), opt: s.Opt}
+		if s.Via == "proc" { // a process of its own
+			procs = append(procs, raw)
+			prefs = append(prefs, ref)
+		} else if s.Via == "extract" || s.G == "for" {
 			heavy = append(heavy, raw)
 			hrefs = append(hrefs, ref)
 		} else {
@@ -901,11 +955,27 @@ func cmdReplay(args []string) error {
 	if err := mk(heavy, hrefs, hsize, true); err != nil {
 		return err
 	}
+	nb := len(batches)
+	if err := mk(procs, prefs, 1, true); err != nil {
+		return err
+	}
+	for _, b := range batches[nb:] {
+		b.proc = true
+	}
 	if err := mk(light, lrefs, *batchSize, false); err != nil {
 		return err
 	}
 
-	a := &agg{perGroup: map[string]int{}, perFunc: map[string]int{}, clsCount: map[string]int{}}
+	a := &agg{perGroup: map[string]int{}, perFunc: map[string]int{}, clsCount: map[string]int{}, procModes: map[string]int{}, confirmed: map[string]int{}}
+	if *ptracePath != "" {
+		pf, err := os.Create(*ptracePath)
+		if err != nil {
+			return err
+		}
+		defer pf.Close()
+		a.ptrace = bufio.NewWriterSize(pf, 1<<20)
+		defer a.ptrace.Flush()
+	}
 	if *tracePath != "" {
 		tf, err := os.Create(*tracePath)
 		if err != nil {
@@ -960,13 +1030,18 @@ func cmdReplay(args []string) error {
 	if a.trace != nil {
 		a.trace.Flush()
 	}
+	if a.ptrace != nil {
+		a.ptrace.Flush()
+	}
 	vh.WriteJSON(*out, M{
+		"same_class_not_rerun": a.notRerun,
+		"proc_modes":           a.procModes, "proc_scans_recorded": a.ptraceScans, "inf_results": a.infResults, "proc_evals": a.procEvals,
 		"scenarios": a.scenarios, "compiles": a.compiles, "evals": a.evals, "lines": a.lines, "markers": a.markers,
 		"per_group": a.perGroup, "functions": len(a.perFunc), "classes": a.clsCount,
 		"findings": a.findings, "mismatches": a.mismatches, "unconfirmed": a.unconfirmed, "samples": a.samples,
 		"distinct_nontrivial": distinct, "trace_scans": a.traceScans, "trace_events": a.traceEvents,
 		"children": a.children, "child_deaths": a.childDeaths, "infra": a.infra, "batches": len(batches),
-		"expected": len(light) + len(heavy),
+		"expected": len(light) + len(heavy) + len(procs),
 	})
 	os.RemoveAll(dir)
 	return nil
@@ -1005,6 +1080,19 @@ func (a *agg) absorb(b *batch, ref map[string]scnRef, oc *childOutcome) {
 			a.mismatches = append(a.mismatches, Mismatch{ID: r.ID, G: r.G, F: r.F, Cls: r.Cls, Text: trunc(sr.text, 300),
 				ErrOpt: r.ErrOpt, ErrNoopt: r.ErrNoopt, ErrText: r.ErrText})
 		}
+		if r.Mode != "" {
+			a.procModes[r.Mode]++
+			a.infResults += r.Inf
+			a.procEvals += r.Evals
+		}
+		if len(r.PTrace) > 0 && a.ptrace != nil {
+			for _, e := range r.PTrace {
+				eb, _ := json.Marshal(e)
+				a.ptrace.Write(eb)
+				a.ptrace.WriteByte('\n')
+			}
+			a.ptraceScans++
+		}
 		if len(r.Trace) > 0 && a.trace != nil {
 			for _, e := range r.Trace {
 				eb, _ := json.Marshal(e)
@@ -1042,6 +1130,31 @@ func (a *agg) synthTrace(tno, n int, phase string, line int, res string) {
 	a.traceScans++
 }
 
+// the recorded scan of a process that died: it got as far as line `line` and never finished it
+func (a *agg) synthProcTrace(tno int, sr scnRef, line int, res string) {
+	if a.ptrace == nil {
+		return
+	}
+	ng := 1
+	if sr.mode == "par" {
+		ng = parG
+	}
+	evs := []PEvent{{Event: "reset", T: tno, N: sr.lines, Ne: sr.nc, Nc: sr.nc, Ng: ng, Mode: sr.mode}}
+	for e := 1; e <= sr.nc; e++ {
+		evs = append(evs, PEvent{Event: "compile", T: tno, E: e, Res: "ok"})
+	}
+	if res == "panic" {
+		res = "fatal"
+	}
+	evs = append(evs, PEvent{Event: "line", T: tno, K: line, E: 1, G: 1, Res: res})
+	for _, e := range evs {
+		eb, _ := json.Marshal(e)
+		a.ptrace.Write(eb)
+		a.ptrace.WriteByte('\n')
+	}
+	a.ptraceScans++
+}
+
 // runs one batch to completion: child, and on an abnormal end the confirmation run and the rest of the batch
 func (a *agg) runBatch(self, common string, b *batch, deadline, mem, traceMod int, hashes bool) {
 	ref := map[string]scnRef{}
@@ -1054,10 +1167,17 @@ func (a *agg) runBatch(self, common string, b *batch, deadline, mem, traceMod in
 	skip := 0
 	tbase := b.no * 100000
 	for skip < len(b.scns) {
+		tm := traceMod
+		if b.proc {
+			tm = 1 // every process scenario is recorded
+		}
 		args := []string{"-common", common, "-in", b.path, "-out", outPath, "-deadline", strconv.Itoa(deadline), "-mem", strconv.Itoa(mem),
-			"-tracemod", strconv.Itoa(traceMod), "-tbase", strconv.Itoa(tbase), "-skip", strconv.Itoa(skip)}
+			"-tracemod", strconv.Itoa(tm), "-tbase", strconv.Itoa(tbase), "-skip", strconv.Itoa(skip)}
 		if hashes {
 			args = append(args, "-hashes", b.path+".hashes")
+		}
+		if b.proc {
+			args = append(args, "-progress", b.path+".prog")
 		}
 		wall := time.Duration(deadline)*time.Millisecond*4 + 10*time.Minute
 		oc, err := runChild(self, args, outPath, wall)
@@ -1097,9 +1217,28 @@ func (a *agg) runBatch(self, common string, b *batch, deadline, mem, traceMod in
 			a.mu.Unlock()
 			return
 		}
+		// a process scenario that dies the way several confirmed ones did is not run again: the class is reported already
+		deathClass := ""
+		if b.proc && oc.hang == nil && oc.oom == nil && !oc.killed {
+			m, w := fatalLine(oc.stderr)
+			deathClass = m + " @ " + w
+			a.mu.Lock()
+			often := m != "" && a.confirmed[deathClass] >= 6
+			if often {
+				a.notRerun++
+			}
+			a.mu.Unlock()
+			if often {
+				skip = si + 1
+				continue
+			}
+		}
 		// ---- confirm: the suspect alone, fresh process, three times the deadline
 		cargs := []string{"-common", common, "-in", b.path, "-out", outPath + ".confirm", "-deadline", strconv.Itoa(deadline * 3), "-mem", strconv.Itoa(mem),
 			"-tracemod", "0", "-only", strconv.Itoa(si)}
+		if b.proc {
+			cargs = append(cargs, "-progress", b.path+".prog")
+		}
 		cc, cerr := runChild(self, cargs, outPath+".confirm", time.Duration(deadline)*time.Millisecond*12+10*time.Minute)
 		a.mu.Lock()
 		a.children++
@@ -1140,9 +1279,24 @@ func (a *agg) runBatch(self, common string, b *batch, deadline, mem, traceMod in
 				if sr.via == "extract" {
 					fd.Phase = "scan"
 				}
+				if b.proc { // where the process was when it died
+					fd.Phase = "process:" + sr.mode
+					fd.Opt = sr.opt
+					var at []string
+					for _, pg := range readProgress(b.path + ".prog") {
+						if fd.Line == 0 || pg[0] < fd.Line {
+							fd.Line = pg[0]
+						}
+						at = append(at, fmt.Sprintf("goroutine %d: line %d, unit %d", pg[2]+1, pg[0], pg[1]))
+					}
+					fd.Detail += "; last evaluations started: " + strings.Join(at, ", ")
+				}
 			}
 			a.mu.Lock()
 			a.findings = append(a.findings, fd)
+			if deathClass != "" && fd.Kind == "fatal" {
+				a.confirmed[deathClass]++
+			}
 			res := "panic"
 			if fd.Kind == "hang" || fd.Kind == "oom" {
 				res = "hang"
@@ -1155,7 +1309,11 @@ func (a *agg) runBatch(self, common string, b *batch, deadline, mem, traceMod in
 			if ln < 1 {
 				ln = 1
 			}
-			a.synthTrace(tbase+si, sr.lines, ph, ln, res)
+			if b.proc {
+				a.synthProcTrace(tbase+si, sr, ln, res)
+			} else {
+				a.synthTrace(tbase+si, sr.lines, ph, ln, res)
+			}
 			a.mu.Unlock()
 		}
 		os.Remove(outPath + ".confirm")
@@ -1217,6 +1375,7 @@ func cmdCli(args []string) error {
 	out := fs.String("out", "cli.json", "")
 	n := fs.Int("n", 300, "expression runs")
 	nscan := fs.Int("nscan", 16, "scan scenarios (each through filter and histogram)")
+	nproc := fs.Int("nproc", 0, "process scenarios (ignore + extraction expressions of one rare invocation, through filter and histogram)")
 	timeout := fs.Int("timeout", 30000, "")
 	par := fs.Int("par", 6, "")
 	fs.Parse(args)
@@ -1262,8 +1421,43 @@ func cmdCli(args []string) error {
 	var jobs []job
 	perGroup := map[string]int{}
 	scans := 0
+	procCap, procCheap := 0, 0
 	for i := range scns {
 		s := &scns[i]
+		if s.Via == "proc" {
+			capped := false
+			for _, k := range s.Kinds {
+				capped = capped || k == "inf" || k == "errinf"
+			}
+			if (capped && procCap >= (*nproc+1)/2) || (!capped && procCheap >= *nproc/2) || len(s.Exprs) < 3 {
+				continue
+			}
+			if capped {
+				procCap++
+			} else {
+				procCheap++
+			}
+			var buf bytes.Buffer
+			for _, ln := range s.Lines {
+				for j, id := range ln.K {
+					v, err := vt.get(id)
+					if err != nil {
+						return err
+					}
+					if j > 0 {
+						buf.WriteByte(' ')
+					}
+					buf.WriteString(v)
+				}
+				buf.WriteByte('\n')
+			}
+			fpath := fmt.Sprintf("%s/proc-%d.log", dir, procCap+procCheap)
+			os.WriteFile(fpath, buf.Bytes(), 0o644)
+			common := []string{"-m", procPattern, "-i", s.Exprs[0].Text(), "-e", s.Exprs[1].Text(), "-e", s.Exprs[2].Text(), "--batch", "1", "-w", "2"}
+			jobs = append(jobs, job{kind: "proc-filter", s: s, args: append(append([]string{"--funcs", ffPath, "filter"}, common...), fpath)})
+			jobs = append(jobs, job{kind: "proc-histogram", s: s, args: append(append([]string{"--funcs", ffPath, "--nocolor", "histogram"}, common...), "-n", "5", fpath)})
+			continue
+		}
 		if s.Via == "extract" {
 			if scans >= *nscan {
 				continue
